@@ -133,6 +133,53 @@ def run(ctx):
             errs = T.validate_agp_text(agp.read_text(), recl) if agp.exists() else ["no AGP written beside the FASTA"]
             if errs:
                 ctx.out.oracle_fail("fasta-with-agp", inp, "AGP beside the FASTA: " + errs[0])
+    # AGP text as OTHER tools write it (GenBank-style: 'N' gaps, linkage 'no', evidence 'na' / 'paired-ends' …, objects not starting
+    # at part 1 in the file's own numbering): whatever was read, what the tools WRITE must be valid and carry U / yes / a gap type
+    foreign = []
+    for _ in range(150 * n):
+        a = T.rand_assembly(rng, "agp")
+        seen = set()
+        for s_ in a["scaffolds"]:
+            while s_["name"] in seen:
+                s_["name"] += "_"
+            seen.add(s_["name"])
+        t = T.real_format(a, "agp")
+        if "err" in t:
+            continue
+        lines = []
+        for l in t["ok"].split("\n"):
+            f = l.split("\t")
+            if len(f) >= 9 and f[4] == "U":
+                f[4] = rng.choice(["U", "N", "N"])
+                f[7] = rng.choice(["no", "yes", "no"])
+                f[8] = rng.choice(["na", "paired-ends", "map", "proximity_ligation", "align_genus;pcr"])
+                if rng.random() < 0.3:
+                    f[3] = str(rng.randint(1, 99))         # part numbers are not read back
+            elif len(f) >= 9 and f[4] == "W" and rng.random() < 0.2:
+                f[1], f[2] = str(rng.randint(1, 10**6)), str(rng.randint(1, 10**6))   # neither are object coordinates
+            lines.append("\t".join(f))
+        foreign.append("\n".join(lines))
+    fm = ctx.driver.batch([{"id": 0, "kind": "parse_agp", "lines": T.py_lines(t_)} for t_ in foreign]) if ctx.driver else [None] * len(foreign)
+    import io as _io
+    from tola.assembly.parser import parse_agp
+    from tola.assembly.format import format_agp
+    for t_, m in zip(foreign, fm):
+        inp = {"agp": t_, "source": "foreign-agp"}
+        try:
+            asm = parse_agp(_io.StringIO(t_), "x")
+            buf = _io.StringIO(); format_agp(asm, buf); written = buf.getvalue()
+        except Exception as e:
+            ctx.out.case("foreign-agp", inp, ("foreign", "err"))
+            ctx.out.oracle_fail("foreign-agp", inp, f"parse/format of a GenBank-style AGP failed: {conv.errkind(e)}")
+            continue
+        if m is not None and "ok" in m:
+            m2 = ctx.driver.batch([{"id": 0, "kind": "format_agp", "asm": m["ok"]}])[0]
+            ctx.out.compare("foreign-agp", inp, {"ok": written}, m2 if "err" in m2 else {"ok": "".join(m2["ok"])}, ("foreign", "ok"))
+        else:
+            ctx.out.case("foreign-agp", inp, ("foreign", "ok"))
+        errs = T.validate_agp_text(written)
+        if errs:
+            ctx.out.oracle_fail("foreign-agp", inp, "AGP re-written from a GenBank-style AGP is not valid: " + errs[0], detail={"text": written[:500]})
     # asm-format CLI
     from click.testing import CliRunner
     from tola.assembly.scripts.asm_format import cli
